@@ -1,0 +1,6 @@
+//go:build !verif
+
+package lungo
+
+// verifPoint is a no-op unless the package is built with the "verif" tag.
+func verifPoint(string, interface{}) {}
